@@ -434,6 +434,11 @@ def judge_history(phases, h, eng_calls, mod_calls):
                 return ("finding", "crash-modify-of-empty-solid-solution",
                         f"engine process died after call {len(eng_calls) - 1}: a solid solution added by "
                         "SOLID_SOLUTIONS_MODIFY to an empty (mixed from nothing) assemblage is used in a calculation"), j.stats, None
+        for p in prov.values():
+            if p[0] == "emix" and p[1] == "gas" and all(c == "-" for c in p[3:]):
+                return ("finding", "crash-gas-phase-mixed-from-nothing",
+                        f"engine process died after call {len(eng_calls) - 1}: a gas phase that GAS_PHASE_MIX built from "
+                        "no existing gas phase (empty, no type/volume data) is used in a calculation"), j.stats, None
         return ("bad", f"engine produced {len(eng_calls)} call results for {len(h) + 1} calls (crash?)"), j.stats, None
     for ci, (e, m) in enumerate(zip(eng_calls, mod_calls)):
         r = j.call(ci, e, m)
